@@ -22,6 +22,7 @@ PROBES = {
     "publishAfterUpdate": [_probe("call", 1500, 0, "general"), _probe("call", 600, 0, "single")],
     "takeValuedNamed": [_probe("call", 1500, 0, "general"), _probe("call", 600, 0, "exact")],
     "trackReaching": [_probe("call", 800, 0, "hopeless")],
+    "hopCopies": [_probe("call", 1200, 0, "single"), _probe("call", 800, 0, "general")],
     "r8SkipSupplied": [_probe("redef", 800, 0)],
     "skipRecordsInput": [_probe("redef", 800, 0)],
     "dupIsError": [_probe("redef", 800, 0)],
@@ -135,7 +136,7 @@ PROPS = {
         "claim": "Theorems: the matching table is closed under flow along the edge rules (flow_compat, needs ImplTrans and ImplAntisym); every edge of the graph callGraph builds is an instance of a rule (callGraph_edges); for every oracle and behaviour every executed function receives a full argument list whose members entered the graph at an origin vertex and flowed to the parameter vertex (call_args_flow); together: injection_sound_partial. Every executed function receives supplied or previously returned values whose origin label is compatible with the parameter under the matching table. Tied to the code by trace conformance: the real call graph, requirement order, Dijkstra pop orders, chosen paths, every argument list and the outcome are replayed through the model; the predicate is evaluated on the real trace with provenance ids.",
         "note": "reflect / hclog / user function bodies are modelled (arbitrary behaviours); twin interfaces (finding F14) excluded by hypothesis once proved.",
         "theorems": ["ArgMapper.C01.flow_compat", "ArgMapper.C01.callGraph_edges", "ArgMapper.C01.call_args_flow", "ArgMapper.C01.initSt_storeOK", "ArgMapper.C01.flow_ruleFlow", "ArgMapper.C01.callGraph_store_origin", "ArgMapper.C01.injection_sound_partial", "ArgMapper.C01.counterexample_twin_interfaces", "ArgMapper.C01.newFunc_keysOK", "ArgMapper.C01.callGraph_no_arg_root", "ArgMapper.C01.stdCtx_funcsOK", "ArgMapper.C01.injection_sound"],
-        "facts": {"r5SkipSame": "true", "r6NameTest": "true", "publishAfterUpdate": "true", "trackReaching": "true", "takeValuedNamed": "true", "memoCopy": "true"},
+        "facts": {"r5SkipSame": "true", "r6NameTest": "true", "publishAfterUpdate": "true", "trackReaching": "true", "takeValuedNamed": "true", "hopCopies": "true", "memoCopy": "true"},
         "rule": "call: at least one function executed, or an unsatisfied error with a converter present.",
         "runs": {"quick": [fam("call", 600, 0), fam("call", 200, 0, "gens")], "thorough": [fam("call", 100000, 0), fam("call", 20000, 0, "gens")]},
     },
@@ -143,7 +144,7 @@ PROPS = {
         "claim": "Theorems (any oracle, behaviour, state): reach_never_out_of_fuel / call_never_out_of_fuel (recursion depth bounded by the number of function vertices), no_elem_or_unknown_panic, malformed_options, counterexample_mutual_cycle_diverges (the unrepaired model diverges on the F3 input), generator_error_reported / generators_transparent / runGens_perm (converter generators: an error on any visited value aborts with an error for every iteration order; otherwise the graph is callGraph of the builder extended by the generated converters). No panic, crash or unbounded recursion on well-formed use. Decided on the model's explicit panic sites and fuel; real stack / reflect behaviour by crash-isolated exploration (worker restarted after a fatal stack overflow).",
         "note": "all modelled panic sites are proved unreachable (no_elem_or_unknown_panic for every oracle; no_walk_panic_partial_final_set for every legal oracle, full label language: neither the final-value panic nor reflect's Set panic); partial only in that real reflect / stack behaviour outside the model is covered by crash-isolated exploration.",
         "theorems": ["ArgMapper.C06.reach_never_out_of_fuel", "ArgMapper.C06.call_never_out_of_fuel", "ArgMapper.C06.counterexample_mutual_cycle_diverges", "ArgMapper.C06.no_elem_or_unknown_panic", "ArgMapper.C06.malformed_options", "ArgMapper.C06.ignored_options", "ArgMapper.C06.no_walk_panic", "ArgMapper.C06.no_walk_panic_partial_final_set", "ArgMapper.C06.no_walk_panic_partial_single_input", "ArgMapper.C06.paramsKept_of_single", "ArgMapper.C06.counterexample_missing_arg", "ArgMapper.C06.generators_transparent", "ArgMapper.C06.no_generators", "ArgMapper.C06.generator_error_reported", "ArgMapper.C06.generated_sound_complete", "ArgMapper.C06.runGens_perm", "ArgMapper.C06.genVerts_kinds", "ArgMapper.C06.supplied_in_snapshot"],
-        "facts": {"r5SkipSame": "true", "r6NameTest": "true", "publishAfterUpdate": "true", "trackReaching": "true", "takeValuedNamed": "true", "memoCopy": "true"},
+        "facts": {"r5SkipSame": "true", "r6NameTest": "true", "publishAfterUpdate": "true", "trackReaching": "true", "takeValuedNamed": "true", "hopCopies": "true", "memoCopy": "true"},
         "rule": "call: at least one function executed, or an unsatisfied error with a converter present; sig: positional signatures.",
         "runs": {"quick": [fam("call", 800, 0), fam("call", 300, 0, "malformed"), fam("call", 300, 0, "gens"), fam("sig", 600, 5), fam("hist", 400, 0), fam("redef", 300, 0), fam("conv", 300, 0)],
                  "thorough": [fam("call", 200000, 0), fam("call", 20000, 0, "malformed"), fam("call", 30000, 0, "gens"), fam("sig", 50000, 5), fam("hist", 40000, 0), fam("redef", 30000, 0), fam("conv", 30000, 0)]},
@@ -151,28 +152,28 @@ PROPS = {
     "C02": {
         "claim": "Theorems: C02.refused (execution level, any oracle/behaviour/fuel: with an underivable parameter the target is never executed and the call does not succeed), C13.hopeless_reported / unsat_before_execution (graph level). Unsatisfiable calls are refused: error returned, target never run, no converter run with a missing argument, dedicated error type when every converter is satisfiable. Tied to the code by trace conformance on scenarios with a hopeless / underivable parameter (dead types, AND-unreachable converters, cycles) and the predicate evaluated on the real trace against the executable derivability fixpoint.",
         "note": "derivability is computed under the matching table of C01 (a superset of what the library can match, so the premise is conservative).",
-        "theorems": ["ArgMapper.C13.hopeless_reported", "ArgMapper.C13.unsat_before_execution", "ArgMapper.C13.exact_not_listed", "ArgMapper.C02.refused", "ArgMapper.C02.refused_original_false"], "facts": {"r5SkipSame": "true", "r6NameTest": "true", "publishAfterUpdate": "true", "trackReaching": "true", "takeValuedNamed": "true", "memoCopy": "true"},
+        "theorems": ["ArgMapper.C13.hopeless_reported", "ArgMapper.C13.unsat_before_execution", "ArgMapper.C13.exact_not_listed", "ArgMapper.C02.refused", "ArgMapper.C02.refused_original_false"], "facts": {"r5SkipSame": "true", "r6NameTest": "true", "publishAfterUpdate": "true", "trackReaching": "true", "takeValuedNamed": "true", "hopCopies": "true", "memoCopy": "true"},
         "rule": "call: at least one function executed, or an unsatisfied error with a converter present.",
         "runs": {"quick": [fam("call", 500, 0, "hopeless"), fam("call", 300, 0, "general"), fam("call", 150, 0, "gens")],
                  "thorough": [fam("call", 60000, 0, "hopeless"), fam("call", 40000, 0, "general"), fam("call", 10000, 0, "gens")]},
     },
     "C03": {
         "claim": "Theorems: exact_wins_named (any oracle) and exact_wins (every legal Dijkstra oracle; uses C18.dist_exact and the weighted edge characterisation regenerated from graph.go): with an exactly matching supplied value for every parameter only the target executes and each parameter receives its exact value. Exact matches win: with an exactly matching supplied value for every parameter no converter runs and each parameter receives that value, whatever distractors are supplied. Tied to the code by trace conformance on the exact+distractors family (5 repetitions per scenario for tie-breaking) and the predicate on real traces.",
-        "note": "", "theorems": ["ArgMapper.C03.exact_wins_named", "ArgMapper.C03.exact_wins", "ArgMapper.C03.sameInputs_of_consistent", "ArgMapper.C03.namedOK_of_build", "ArgMapper.C03.builderOK_of_build", "ArgMapper.C03.counterexample_duplicate_key", "ArgMapper.C03.counterexample_same_key", "ArgMapper.C03.counterexample_typed_key"], "facts": {"r5SkipSame": "true", "r6NameTest": "true", "publishAfterUpdate": "true", "trackReaching": "true", "takeValuedNamed": "true", "memoCopy": "true"},
+        "note": "", "theorems": ["ArgMapper.C03.exact_wins_named", "ArgMapper.C03.exact_wins", "ArgMapper.C03.sameInputs_of_consistent", "ArgMapper.C03.namedOK_of_build", "ArgMapper.C03.builderOK_of_build", "ArgMapper.C03.counterexample_duplicate_key", "ArgMapper.C03.counterexample_same_key", "ArgMapper.C03.counterexample_typed_key"], "facts": {"r5SkipSame": "true", "r6NameTest": "true", "publishAfterUpdate": "true", "trackReaching": "true", "takeValuedNamed": "true", "hopCopies": "true", "memoCopy": "true"},
         "rule": "call: any scenario of the family (the target always executes).",
         "runs": {"quick": [fam("call", 500, 0, "exact"), fam("call", 200, 0, "general")],
                  "thorough": [fam("call", 100000, 0, "exact"), fam("call", 20000, 0, "general")]},
     },
     "C04": {
         "claim": "Theorems (for every graph, oracle, behaviour and fuel): a failing execution is the last execution of the call and its error is what Call returns; a successful call executed no failing function; the target's own error is reported by the accessor. Tied to the code by trace conformance on chains with failing converters at every depth (multi-input, struct-returning, memoised) with error identity checked through provenance ids.",
-        "note": "", "theorems": ["ArgMapper.C04.failing_execution_is_last", "ArgMapper.C04.ok_means_no_failure", "ArgMapper.C04.target_error_reported", "ArgMapper.C04.conv_error_verbatim"], "facts": {"r5SkipSame": "true", "r6NameTest": "true", "publishAfterUpdate": "true", "trackReaching": "true", "takeValuedNamed": "true", "memoCopy": "true"},
+        "note": "", "theorems": ["ArgMapper.C04.failing_execution_is_last", "ArgMapper.C04.ok_means_no_failure", "ArgMapper.C04.target_error_reported", "ArgMapper.C04.conv_error_verbatim"], "facts": {"r5SkipSame": "true", "r6NameTest": "true", "publishAfterUpdate": "true", "trackReaching": "true", "takeValuedNamed": "true", "hopCopies": "true", "memoCopy": "true"},
         "rule": "call: at least one function executed.",
-        "runs": {"quick": [fam("call", 500, 0, "fail"), fam("call", 200, 0, "general"), fam("call", 150, 0, "gens")],
-                 "thorough": [fam("call", 50000, 0, "fail"), fam("call", 20000, 0, "general"), fam("call", 10000, 0, "gens")]},
+        "runs": {"quick": [fam("call", 500, 0, "fail"), fam("call", 200, 0, "general"), fam("call", 150, 0, "gens"), fam("race", 40, 8, "25", bin="harness-race")],
+                 "thorough": [fam("call", 50000, 0, "fail"), fam("call", 20000, 0, "general"), fam("call", 10000, 0, "gens"), fam("race", 800, 8, "40", bin="harness-race")]},
     },
     "C05": {
-        "claim": "Theorems for the subtype-free fragment, every oracle: complete_single (single-input converters, cycles allowed: once callGraph finds every parameter reachable the call ends in success or in a function body's own error) stable (the outcome class does not depend on the oracle) and complete_acyclic (clause (b): any number of inputs per converter, the pruned graph acyclic and every surviving converter with all its requirements in the graph). Subtypes by exploration. Chaining is complete and the outcome stable on well-behaved converter sets. Tied to the code by trace conformance on acyclic-satisfiable and single-input-cyclic families, 8 repetitions per scenario; completeness is judged against the matching table, with the table-but-not-library matches (gaps G1-G5) listed as known findings.",
-        "note": "", "theorems": ["ArgMapper.C05.complete_single", "ArgMapper.C05.stable", "ArgMapper.C05.newFunc_setsWF", "ArgMapper.C05.counterexample_duplicate_named_key", "ArgMapper.C05.counterexample_values_without_struct", "ArgMapper.C05.complete_acyclic"], "facts": {"r5SkipSame": "true", "r6NameTest": "true", "publishAfterUpdate": "true", "trackReaching": "true", "takeValuedNamed": "true", "memoCopy": "true"},
+        "claim": "Theorems for the subtype-free fragment, every oracle: complete_single (single-input converters, cycles allowed: once callGraph finds every parameter reachable the call ends in success or in a function body's own error) stable (the outcome class does not depend on the oracle) and complete_acyclic (clause (b): any number of inputs per converter, the pruned graph acyclic and every surviving converter with all its requirements in the graph). With the full label language (names, subtypes, interfaces) and every legal oracle: complete_single_legal (single-input converters, arbitrary cycles — true of the repaired walk only: counterexample_single_legal is the pre-repair model refusing a satisfiable call, finding F22) and complete_acyclic_legal. Chaining is complete and the outcome stable on well-behaved converter sets. Tied to the code by trace conformance on acyclic-satisfiable and single-input-cyclic families, 8 repetitions per scenario; completeness is judged against the matching table, with the table-but-not-library matches (gaps G1-G5) listed as known findings.",
+        "note": "", "theorems": ["ArgMapper.C05.complete_single", "ArgMapper.C05.stable", "ArgMapper.C05.newFunc_setsWF", "ArgMapper.C05.counterexample_duplicate_named_key", "ArgMapper.C05.counterexample_values_without_struct", "ArgMapper.C05.complete_acyclic", "ArgMapper.C05.complete_single_legal", "ArgMapper.C05.complete_acyclic_legal", "ArgMapper.C05.complete_single_legal_partial_no_r6", "ArgMapper.C05.counterexample_single_legal", "ArgMapper.C05.counterexample_single_legal_repaired"], "facts": {"r5SkipSame": "true", "r6NameTest": "true", "publishAfterUpdate": "true", "trackReaching": "true", "takeValuedNamed": "true", "hopCopies": "true", "memoCopy": "true"},
         "rule": "call: at least one function executed, or an unsatisfied error with a converter present.",
         "runs": {"quick": [fam("call", 300, 0, "single"), fam("call", 300, 0, "acyclic")],
                  "thorough": [fam("call", 30000, 0, "single"), fam("call", 30000, 0, "acyclic")]},
@@ -183,27 +184,27 @@ PROPS = {
         "theorems": ["ArgMapper.C07.feeder_pred", "ArgMapper.C07.branch_pred", "ArgMapper.C07.branch_pred_long",
                      "ArgMapper.C07.affinity_path", "ArgMapper.C07.named_converter_path", "ArgMapper.C07.named_converter_path'",
                      "ArgMapper.C07.walk_converts_feeder", "ArgMapper.C07.walk_runs_named_converter"],
-        "facts": {"r5SkipSame": "true", "r6NameTest": "true", "publishAfterUpdate": "true", "trackReaching": "true", "takeValuedNamed": "true", "memoCopy": "true"},
+        "facts": {"r5SkipSame": "true", "r6NameTest": "true", "publishAfterUpdate": "true", "trackReaching": "true", "takeValuedNamed": "true", "hopCopies": "true", "memoCopy": "true"},
         "rule": "call: the converter executed.",
         "runs": {"quick": [fam("call", 250, 0, "affinity")], "thorough": [fam("call", 20000, 0, "affinity")]},
     },
     "C13": {
         "claim": "Theorems: hopeless_reported (uses the verified DFS model, the edge characterisation and flow_compat), unsat_are_parameters, exact_not_listed, inputs_are_supplied, unsat_before_execution. The unsatisfied-argument error lists the hopeless parameter, only underivable parameters, exactly the supplied values, every supplied converter, and its message mentions each missing argument. Tied to the code by comparing the structured error fields (errors.As) of the real code with the model on scenarios with a hopeless parameter.",
-        "note": "", "theorems": ["ArgMapper.C13.hopeless_reported", "ArgMapper.C13.unsat_before_execution", "ArgMapper.C13.unsat_are_parameters", "ArgMapper.C13.exact_not_listed", "ArgMapper.C13.inputs_are_supplied"], "facts": {"r5SkipSame": "true", "r6NameTest": "true", "publishAfterUpdate": "true", "trackReaching": "true", "takeValuedNamed": "true", "memoCopy": "true"},
+        "note": "", "theorems": ["ArgMapper.C13.hopeless_reported", "ArgMapper.C13.unsat_before_execution", "ArgMapper.C13.unsat_are_parameters", "ArgMapper.C13.exact_not_listed", "ArgMapper.C13.inputs_are_supplied"], "facts": {"r5SkipSame": "true", "r6NameTest": "true", "publishAfterUpdate": "true", "trackReaching": "true", "takeValuedNamed": "true", "hopCopies": "true", "memoCopy": "true"},
         "rule": "call: an unsatisfied error with a converter present, or a function executed.",
         "runs": {"quick": [fam("call", 600, 0, "hopeless"), fam("hist", 400, 0)], "thorough": [fam("call", 50000, 0, "hopeless"), fam("hist", 30000, 0)]},
     },
     "C08": {
         "claim": "Theorems: inputs_filtered_fresh (every declared input passes the input filter and is not a supplied vertex, any oracle), output_filter, succeeds_when_permitted (subtype-free single-input fragment, any oracle: every parameter permitted and outputs admitted => the planning run succeeds), callable_graph / callable (same fragment: the call the redefined function makes is never refused for lack of an argument; two counterexamples to the statements without the one-type-per-name / lower-case-name hypotheses), inputSet_root_adjacent, root_adjacent_supplied_or_permitted. Redefine yields a function over exactly the missing, permitted inputs. Tied to the code by replaying the planning run (redefine-mode reachTarget with zero-producing stand-ins) through the model: call graph with filter-gated root edges, requirement order, pop orders, paths and the declared input set are compared; the redefined function is then called and the inner Call is replayed as an ordinary call with the extra values.",
         "note": "premise of the property: single-input converters, no subtypes, one type per name (the generator respects it).",
-        "theorems": ["ArgMapper.C08.succeeds_when_permitted", "ArgMapper.C08.callable_graph", "ArgMapper.C08.callable", "ArgMapper.C08.newFunc_lowerNames", "ArgMapper.C08.counterexample_upper_case_name", "ArgMapper.C08.counterexample_name_with_two_types", "ArgMapper.C08.inputs_filtered_fresh", "ArgMapper.C08.declared_not_supplied", "ArgMapper.C08.output_filter", "ArgMapper.C08.inputSet_root_adjacent", "ArgMapper.C08.root_adjacent_supplied_or_permitted"], "facts": {"r5SkipSame": "true", "r6NameTest": "true", "publishAfterUpdate": "true", "trackReaching": "true", "takeValuedNamed": "true", "memoCopy": "true", "r8SkipSupplied": "true", "skipRecordsInput": "false", "dupIsError": "true", "onceLockCoversCall": "true"},
+        "theorems": ["ArgMapper.C08.succeeds_when_permitted", "ArgMapper.C08.callable_graph", "ArgMapper.C08.callable", "ArgMapper.C08.newFunc_lowerNames", "ArgMapper.C08.counterexample_upper_case_name", "ArgMapper.C08.counterexample_name_with_two_types", "ArgMapper.C08.inputs_filtered_fresh", "ArgMapper.C08.declared_not_supplied", "ArgMapper.C08.output_filter", "ArgMapper.C08.inputSet_root_adjacent", "ArgMapper.C08.root_adjacent_supplied_or_permitted"], "facts": {"r5SkipSame": "true", "r6NameTest": "true", "publishAfterUpdate": "true", "trackReaching": "true", "takeValuedNamed": "true", "hopCopies": "true", "memoCopy": "true", "r8SkipSupplied": "true", "skipRecordsInput": "false", "dupIsError": "true", "onceLockCoversCall": "true"},
         "rule": "redef: any planning run; call: at least one function executed.",
         "runs": {"quick": [fam("redef", 500, 0)], "thorough": [fam("redef", 40000, 0)]},
     },
     "C09": {
         "claim": "Theorem redefine_ignores_original_behaviour; purity is structural in the model (redefine returns no state). Redefine is pure planning: no user function body runs during Redefine and no function object is disturbed. Tied to the code by execution counters around every Redefine and by histories interleaving Redefine and Call on shared function objects, replayed through the model with the memo cells threaded.",
         "note": "converter generators (user code run while the graph is built) are outside the statement.",
-        "theorems": ["ArgMapper.C09.redefine_ignores_original_behaviour", "ArgMapper.C09.redefine_deterministic"], "facts": {"r5SkipSame": "true", "r6NameTest": "true", "publishAfterUpdate": "true", "trackReaching": "true", "takeValuedNamed": "true", "memoCopy": "true", "r8SkipSupplied": "true", "skipRecordsInput": "false", "dupIsError": "true", "onceLockCoversCall": "true"},
+        "theorems": ["ArgMapper.C09.redefine_ignores_original_behaviour", "ArgMapper.C09.redefine_deterministic"], "facts": {"r5SkipSame": "true", "r6NameTest": "true", "publishAfterUpdate": "true", "trackReaching": "true", "takeValuedNamed": "true", "hopCopies": "true", "memoCopy": "true", "r8SkipSupplied": "true", "skipRecordsInput": "false", "dupIsError": "true", "onceLockCoversCall": "true"},
         "rule": "redef: any planning run.",
         "runs": {"quick": [fam("redef", 400, 0), fam("hist", 500, 0), fam("redefgen", 60, 0)],
                  "thorough": [fam("redef", 30000, 0), fam("hist", 40000, 0), fam("redefgen", 3000, 0)]},
@@ -211,14 +212,14 @@ PROPS = {
     "C10": {
         "claim": "Theorems: convert_is_call, convert_failure, identity_shape, identity_error_shape, converted_value_is_injected (in the model Convert is callWith on the identity FuncDesc). Convert agrees with calling an identity function of the target type. In the model Convert *is* callWith on the identity FuncDesc; tied to the code by running, per scenario, the real Convert and the real Call on a harness-built func(T) T with the same options, replaying both through the model (targets: concrete, interface, error, pointer types; a user converter of the identity's own Go type included).",
         "note": "the library's own identity closure cannot be instrumented: its behaviour (returns its argument) is assumed in the replay of Convert runs.",
-        "theorems": ["ArgMapper.C10.convert_is_call", "ArgMapper.C10.convert_failure", "ArgMapper.C10.identity_shape", "ArgMapper.C10.identity_error_shape", "ArgMapper.C10.converted_value_is_injected"], "facts": {"r5SkipSame": "true", "r6NameTest": "true", "publishAfterUpdate": "true", "trackReaching": "true", "takeValuedNamed": "true", "memoCopy": "true", "r8SkipSupplied": "true", "skipRecordsInput": "false", "dupIsError": "true", "onceLockCoversCall": "true"},
+        "theorems": ["ArgMapper.C10.convert_is_call", "ArgMapper.C10.convert_failure", "ArgMapper.C10.identity_shape", "ArgMapper.C10.identity_error_shape", "ArgMapper.C10.converted_value_is_injected"], "facts": {"r5SkipSame": "true", "r6NameTest": "true", "publishAfterUpdate": "true", "trackReaching": "true", "takeValuedNamed": "true", "hopCopies": "true", "memoCopy": "true", "r8SkipSupplied": "true", "skipRecordsInput": "false", "dupIsError": "true", "onceLockCoversCall": "true"},
         "rule": "conv: at least one function executed, or an unsatisfied error with a converter present.",
         "runs": {"quick": [fam("conv", 500, 0), fam("convseq", 60, 0)], "thorough": [fam("conv", 50000, 0), fam("convseq", 2000, 0)]},
     },
     "C11": {
         "claim": "Theorems: once_at_most_once and first_result_kept over any history of calls; memo_hit; reuse_never_panics; the concurrent protocol theorem C12.once_concurrent (any number of threads, any schedule). A run-once function executes at most once over any history and later uses see the first result. Sequential part: histories of Call / Redefine on shared function objects are replayed through the model with the memo cells threaded, and the number of executions per run-once function is counted on the real trace. Concurrent part: see DESIGN.md (race-detector stress; not yet registered).",
         "note": "partial: the concurrent clause is decided by exploration under the race detector.",
-        "theorems": ["ArgMapper.C11.once_at_most_once", "ArgMapper.C11.first_result_kept", "ArgMapper.C11.memo_hit", "ArgMapper.C11.reuse_never_panics", "ArgMapper.C11.counterexample_ptr_result", "ArgMapper.C12.once_concurrent", "ArgMapper.C12.lock_holder_progresses", "ArgMapper.C12.counterexample_two_first_uses"], "facts": {"r5SkipSame": "true", "r6NameTest": "true", "publishAfterUpdate": "true", "trackReaching": "true", "takeValuedNamed": "true", "memoCopy": "true", "r8SkipSupplied": "true", "skipRecordsInput": "false", "dupIsError": "true", "onceLockCoversCall": "true"},
+        "theorems": ["ArgMapper.C11.once_at_most_once", "ArgMapper.C11.first_result_kept", "ArgMapper.C11.memo_hit", "ArgMapper.C11.reuse_never_panics", "ArgMapper.C11.counterexample_ptr_result", "ArgMapper.C12.once_concurrent", "ArgMapper.C12.lock_holder_progresses", "ArgMapper.C12.counterexample_two_first_uses"], "facts": {"r5SkipSame": "true", "r6NameTest": "true", "publishAfterUpdate": "true", "trackReaching": "true", "takeValuedNamed": "true", "hopCopies": "true", "memoCopy": "true", "r8SkipSupplied": "true", "skipRecordsInput": "false", "dupIsError": "true", "onceLockCoversCall": "true"},
         "rule": "hist: a run-once function was needed at least once.",
         "runs": {"quick": [fam("hist", 800, 0), fam("race", 60, 4, "20", bin="harness-race")],
                  "thorough": [fam("hist", 60000, 0), fam("race", 2000, 8, "60", bin="harness-race"), fam("race", 500, 16, "40", bin="harness-race")]},
@@ -226,7 +227,7 @@ PROPS = {
     "C12": {
         "claim": "Theorems: lock discipline implies no data race (guarded_race_free); the table of accesses to state outliving a call, regenerated from the sources on every run, obeys it (effects_guarded, by evaluation); the run-once protocol executes the body at most once for every schedule (once_concurrent). Functions, converters and options can be shared by concurrent calls. Decided by exploration under the Go race detector: goroutines Call / Convert / Redefine with one shared target, shared converter objects (run-once ones included) and one shared option slice built from every option constructor; any race report is a violation, and every concurrent outcome must be one a sequential run of the same call produced.",
         "note": "partial: schedules are sampled by the Go scheduler, not enumerated; the lock-discipline theorem over the extracted effects table is the proof-side obligation (DESIGN.md C12).",
-        "theorems": ["ArgMapper.C12.guarded_race_free", "ArgMapper.C12.effects_guarded", "ArgMapper.C12.C12_race_free", "ArgMapper.C12.counterexample_two_first_uses", "ArgMapper.C12.once_concurrent"], "facts": {"r5SkipSame": "true", "r6NameTest": "true", "publishAfterUpdate": "true", "trackReaching": "true", "takeValuedNamed": "true", "memoCopy": "true", "r8SkipSupplied": "true", "skipRecordsInput": "false", "dupIsError": "true", "onceLockCoversCall": "true"},
+        "theorems": ["ArgMapper.C12.guarded_race_free", "ArgMapper.C12.effects_guarded", "ArgMapper.C12.C12_race_free", "ArgMapper.C12.counterexample_two_first_uses", "ArgMapper.C12.once_concurrent"], "facts": {"r5SkipSame": "true", "r6NameTest": "true", "publishAfterUpdate": "true", "trackReaching": "true", "takeValuedNamed": "true", "hopCopies": "true", "memoCopy": "true", "r8SkipSupplied": "true", "skipRecordsInput": "false", "dupIsError": "true", "onceLockCoversCall": "true"},
         "rule": "race: every scenario (>= 4 goroutines x >= 20 rounds of Call/Convert/Redefine on shared objects).",
         "runs": {"quick": [fam("race", 80, 4, "25", bin="harness-race")],
                  "thorough": [fam("race", 3000, 8, "60", bin="harness-race"), fam("race", 600, 16, "50", bin="harness-race")]},
